@@ -25,8 +25,9 @@ def vkind : Kind → VKind
 /-- the text a value travels as -/
 def wireText (k : Kind) (fmt : Str) (v : Value) : Option (Option Str) :=
   match k, v with
-  | .number, .num x _ =>
-    (match Num.numToStr Num.exactIEEE fmt x with
+  | .number, .num x isInt =>
+    -- as the driver renders it: `'%.2f' % n` of a Python int goes through a float first (`Dev.preRound`)
+    (match Num.numToStr Num.exactIEEE fmt (preRound fmt isInt x) with
      | .ok t => some (Spec.Dev.normVal (some t))
      | _ => none)
   | .number, .none => some none
